@@ -295,8 +295,9 @@ struct C06 : Driver {
       // i.e. every one of the 18001 coding groups at level 9; primary index at the very end half of the time
       int level = rng.below(2) ? 9 : 1 + (int)rng.below(9);
       size_t n = (size_t)level * 100000 - (rng.below(2) ? 0 : rng.below(60));
-      c.data = bz::gen_full_block(rng, n, level, rng.below(2)).bytes;
-      c.data_desc = "full block " + std::to_string(n) + " symbols, level " + std::to_string(level);
+      bool rnd = rng.below(3) == 0;      // legacy randomised flag on a full-size block
+      c.data = bz::gen_full_block(rng, n, level, rng.below(2), rnd).bytes;
+      c.data_desc = std::string(rnd ? "randomised " : "") + "full block " + std::to_string(n) + " symbols, level " + std::to_string(level);
     } else if (tier && rng.below(400) == 0) {
       Bytes p = gen::random_bytes(rng, 899990 + rng.below(11), 2 + (unsigned)rng.below(3));
       c.data = bz::libbz2_encode(p, 9); c.data_desc = "libbz2 full level-9 block";
